@@ -1,5 +1,6 @@
 import Spake2Verif.Proofs.PropAuxA
 import Spake2Verif.Proofs.ProtoShapeTie
+import Spake2Verif.Proofs.ProtoFlowTie
 /-!
 # C06 — Side-confusion and reflection are always refused
 
@@ -474,5 +475,13 @@ theorem side_checks_are_the_source :
     (Side.byte .A = Spake2Model.Gen.Proto.class_side_A ∧ Side.byte .B = Spake2Model.Gen.Proto.class_side_B ∧
       Side.byte .S = Spake2Model.Gen.Proto.class_side_S) :=
   ⟨ProtoShapeTie.extract_asym_tie, ProtoShapeTie.extract_sym_tie, ProtoShapeTie.class_sides_tie⟩
+
+/-- Tie A: `finish()` (flag, side check, decoding, position of the reflection test) is the translation of the
+method body of `_SPAKE2_Base.finish`; `_extract_message` is dispatched on the class as in the source -/
+theorem finish_is_the_source {G : Group} :
+    @Inst.finish G = ProtoFlowTie.flowFinish ∧
+    (∀ (role : Spake2Model.Gen.ProtoFlow.Role) (m : Bytes),
+      Spake2Model.Gen.ProtoFlow.extract_message role m = extractMessage (ProtoFlowTie.ofRole role) m) :=
+  ⟨ProtoFlowTie.finish_is_source, ProtoFlowTie.extract_tie⟩
 
 end Spake2Verif.C06
